@@ -58,8 +58,8 @@ def gen_spec(rng, thorough=False, force=None):
 	T = rng.randint(3, 40 if thorough and rng.random() < .2 else 12)
 	perm = list(range(n)); rng.shuffle(perm)                 # network.nodes order is a random permutation
 	pool = rng.sample(range(1, 30), n)
-	if thorough and rng.random() < .1:
-		pool[0] = 0
+	if rng.random() < .25:
+		pool[rng.randrange(n)] = 0          # index 0 is a legal node index (and falsy in Python)
 	labels = [pool[i] for i in range(n)]
 	# edges in random insertion order (insertion order = successor / predecessor iteration order)
 	rng.shuffle(pedges)
@@ -108,12 +108,23 @@ def gen_spec(rng, thorough=False, force=None):
 			nodes[str(l)]['hfn'] = [rng.choice(['0', '1/2', '1']), rng.choice(['0', '1', '2']), rng.choice(['0', '1/2', '1'])]
 		if rng.random() < force.get('pcostfn', .12):
 			nodes[str(l)]['pfn'] = [rng.choice(['0', '1']), rng.choice(['0', '-1', '-3']), rng.choice(['0', '1/2', '1'])]
-	return {'kind': kind, 'labels': labels, 'edges': edges, 'nodes': nodes, 'T': T}
+	spec = {'kind': kind, 'labels': labels, 'edges': edges, 'nodes': nodes, 'T': T}
+	if force.get('label0') and 0 not in labels:
+		# give index 0 to a node that is somebody's customer (0 is a legal index, and falsy)
+		cust = [l for l in labels if has_pred[l]]
+		if cust:
+			old_l = rng.choice(cust)
+			spec['labels'] = [0 if l == old_l else l for l in labels]
+			spec['edges'] = [[0 if a == old_l else a, 0 if b == old_l else b] for a, b in edges]
+			spec['nodes'] = {('0' if k == str(old_l) else k): v for k, v in nodes.items()}
+	return spec
 
 
 def spec_flags(spec):
 	"""Feature flags of a spec, for the input-distribution histogram."""
 	fl = ['kind:' + spec['kind'], 'n=%d' % len(spec['labels'])]
+	if 0 in spec['labels']:
+		fl.append('has-node-index-0')
 	for l, nd in spec['nodes'].items():
 		fl.append('policy:' + nd['policy']['t'])
 		fl.append('slt=%d' % nd['slt']); fl.append('olt=%d' % nd['olt'])
@@ -545,6 +556,44 @@ def oracle_C03(spec, tr, init, exo_dis=None):
 			if sent != got:
 				bad.append('edge%d%s: shipment of period %d (%s) but receipt in period %d is %s' % (e, (a, b), t, sent, t + lag, got))
 				break
+	bad += oracle_disruptions(spec, tr)
+	return bad
+
+
+def oracle_disruptions(spec, tr):
+	"""The four documented disruption semantics, on the reported trajectory: OP - the disrupted node places no order; SP - nothing is
+	shipped to the disrupted node; TP - items in transit to the disrupted node do not advance (so nothing that was in transit arrives
+	in the next period); RP - the disrupted node receives nothing."""
+	bad = []
+	pos, edges, inE, outE = layout(spec)
+	labels = spec['labels']
+	T = len(tr)
+	for t, st in enumerate(tr):
+		for b in range(len(labels)):
+			nd = spec['nodes'][str(labels[b])]
+			if not (nd['dis'] and st['nodes'][b]['disrupted']):
+				continue
+			dt = nd['dis']['type']
+			for e in inE[b]:
+				a = edges[e][0]
+				ed = st['edges'][e]
+				if dt == 'OP' and ed['oq'] != 0:
+					bad.append('t=%d node%d is order-paused but ordered %s on edge%d%s' % (t, b, ed['oq'], e, edges[e]))
+				if dt == 'SP' and a is not None and ed['os'] != 0:
+					bad.append('t=%d node%d is shipment-paused but %s units were shipped to it on edge%d%s' % (t, b, ed['os'], e, edges[e]))
+				if dt == 'RP' and ed['is'] != 0:
+					bad.append('t=%d node%d is receipt-paused but received %s on edge%d%s' % (t, b, ed['is'], e, edges[e]))
+				if dt == 'TP' and t + 1 < T:
+					lag = nd['slt'] if a is not None else nd['slt'] + nd['olt']
+					nxt = tr[t + 1]['edges'][e]
+					# transit was frozen at the end of period t: slot 0 (emptied by the receipt of period t) is still empty at the start of
+					# t+1, so period t+1 receives only what enters slot 0 in that very period (lead time 0)
+					same_period = (nxt['os'] if a is not None else nxt['oq']) if lag == 0 else 0
+					if nxt['is'] != ed['ispl'][0] + same_period:
+						bad.append('t=%d node%d is transit-paused, yet in period %d it received %s on edge%d%s (frozen pipeline allows %s)' % (
+							t, b, t + 1, nxt['is'], e, edges[e], ed['ispl'][0] + same_period))
+		if len(bad) > 8:
+			break
 	return bad
 
 
